@@ -71,15 +71,66 @@ def explore_hub(res: Res, g: G, tier, seed):
             check_unconditional(res, g, yg, fam, dom, (it,), case)
 
 
+@lru_cache(maxsize=None)
+def _nested_graphs(tier):
+    """Four-node name-ordered graphs in which one intervened variable can be an ancestor of another: at least one
+    directed path of length two (u -> v -> w), at most 4 (thorough 5) edges, at most one bidirected edge."""
+    from ..graphs import enum_O as eo
+
+    out = []
+    for g in eo(4, max_edges=4 if tier == "quick" else 5):
+        if len(g.bi) > 1 or len(g.di) < 3:
+            continue
+        if any(b == c for a, b in g.di for c, d in g.di):
+            out.append(g)
+    return out
+
+
+def nested_events(g: G):
+    """Pairs (W with two all-'-' subscripts {a, b} where a is a parent of b; another variable with one all-'-' subscript
+    taken from {a, b}), non-reflexive: nested interventions with a mediator observed in a second world."""
+    evs = []
+    for a, b in g.di:
+        for w in g.nodes:
+            if w in (a, b):
+                continue
+            first = (w, ((a, False), (b, False)) if a < b else ((b, False), (a, False)), False)
+            evs.append((first,))
+            for m in g.nodes:
+                for s in (a, b):
+                    if m == s or (m == w):
+                        continue
+                    evs.append((first, (m, ((s, False),), False)))
+    return sorted(set(evs))
+
+
+def explore_nested(res: Res, g: G, tier, seed, only=None):
+    yg = to_y0(g)
+    gj = g.to_json()
+    evs = nested_events(g)
+    for s in subsets(g.nodes, 0, 1):
+        fam = Family(g, s, (), seed)
+        dom, _ = build_domain(g, s, (), 0)
+        dj = {"S": list(s), "Z": [], "order": [str(v) for v in dom.ordering]}
+        if only is not None and only["domain"] != dj:
+            continue
+        for items in evs:
+            if only is not None and event_json(items) != only["event"]:
+                continue
+            case = {"graph": gj, "domain": dj, "event": event_json(items), "nested": True}
+            check_unconditional(res, g, yg, fam, dom, items, case)
+
+
 def shards(tier):
     uni = _universe(tier)
     out = [("hub", i, i + 8) for i in range(0, len(_hub_graphs(tier)), 8)]
+    out += [("nested", i, i + 8) for i in range(0, len(_nested_graphs(tier)), 8)]
     for i, g in enumerate(uni):
         cfgs = domain_configs(g.nodes, tier)
         step = 4 if len(g.nodes) >= 3 else len(cfgs)
         for j in range(0, len(cfgs), step):
             out.append((i, j, min(j + step, len(cfgs))))
-    out.sort(key=lambda t: 0 if t[0] == "hub" else -len(uni[t[0]].nodes))
+    out.sort(key=lambda t: 0 if t[0] in ("hub", "nested") else -len(uni[t[0]].nodes))
     # builder phase: the target graph object and the domain graph objects grown edge by edge, queried after every insertion
     out += [("build", i) for i in range(len(build_ops(NAMES3)))]
     return out
@@ -95,7 +146,7 @@ def describe(tier):
         + "); ctfTR: one outcome and one condition item"
         + ("" if tier == "thorough" else " on the policy-free domains")
         + "; every base value assignment; plus ctfTRu on the four-node graphs "
-        "with >=3 bidirected and <=5 edges (quick: the 300 with two directed edges; thorough: all 551), transport-marked sets of <=2 nodes, single all-'-' items with <=1 subscript; builder sequences: every sequence of 3 edge insertions over 3 names applied in place to one target graph "
+        "with >=3 bidirected and <=5 edges (quick: the 300 with two directed edges; thorough: all 551), transport-marked sets of <=2 nodes, single all-'-' items with <=1 subscript; nested-intervention slice: the name-ordered four-node graphs with a directed path of length two, <=1 bidirected edge and <=4 (thorough 5) edges, no or one transport node, events (W with two all-'-' subscripts {a,b}, a a parent of b) alone and paired with another variable under one of the two subscripts; builder sequences: every sequence of 3 edge insertions over 3 names applied in place to one target graph "
         "object and to one selection-diagram object per source domain (no or one transport node), ctfTRu asked for every all-'-' event of up to two items after every insertion",
         "rule": "state = (target graph, domain, event/query); transition = one unconditional_cft / conditional_cft call whose "
         "expression is evaluated on the multi-domain functional witness family and compared with the target probability",
@@ -453,6 +504,10 @@ def work(shard, tier, seed):
         for g in _hub_graphs(tier)[shard[1] : shard[2]]:
             explore_hub(res, g, tier, seed)
         return res
+    if shard[0] == "nested":
+        for g in _nested_graphs(tier)[shard[1] : shard[2]]:
+            explore_nested(res, g, tier, seed)
+        return res
     gi, lo, hi = shard
     g = _universe(tier)[gi]
     explore(res, g, domain_configs(g.nodes, tier)[lo:hi], tier, seed)
@@ -471,6 +526,9 @@ def replay(case, clause=None):
             for v in res.violations
             if v["input"].get("builder_ops") == case["builder_ops"] and v["input"].get("event") == case.get("event") and v["input"].get("domain") == case.get("domain")
         ][:1]
+    if case.get("nested"):
+        explore_nested(res, g, "thorough", int(os.environ.get("VERIF_SEED", "0") or 0), only=case)
+        return list(res.violations)
     if len(g.nodes) == 4:
         explore_hub(res, g, "quick", int(os.environ.get("VERIF_SEED", "0") or 0))
         return [v for v in res.violations if v["input"].get("event") == case.get("event") and v["input"].get("domain") == case.get("domain")]
